@@ -281,3 +281,31 @@ PROPS["C18"] = {
     "sensitivity": [{"base": "docs-rebuild", "flip": {"RebuildTakesMax": "FALSE"}}],
     "drives": [docs_drive("C18")],
 }
+
+# ------------------------------------------------------------------------------------------ C14
+ACTOR_CONSTS = dict(ENTRY, Docs="{1, 2}", Programs="<- Progs2", EntryU="<- UA", OpenCounts="TRUE", SyncSticky="TRUE",
+                    GateSync="TRUE", GateOpen="TRUE")
+PROPS["C14"] = {
+    "level": "model_checking",
+    "rule": "model: 2 clients x every program of 2 requests out of 16 request shapes over 2 documents, all interleavings of "
+            "enqueueing, FIFO service; implementation: seeded batches of 1-4 pipelined requests (17 request kinds, 2 documents, "
+            "2 cloned handles) on one real actor thread with memory and file stores, store observed after shutdown",
+    "assumptions": ["requests of one batch are sent sequentially on one FIFO channel (send order = service order)",
+                    "whether a refused drop of a multiply-opened document consumes a handle is left free (both accepted)"],
+    "models": [
+        {"name": "actor", "module": "MCActor", "workers": 12, "timeout": 1500, "consts": ACTOR_CONSTS,
+         "invariants": ["AllRepliesOk", "HandlesPositive", "CountsMatch", "AckedHeld"]},
+    ],
+    "sensitivity": [
+        {"base": "actor", "flip": {"OpenCounts": "FALSE"}},
+        {"base": "actor", "flip": {"GateSync": "FALSE"}},
+        {"base": "actor", "flip": {"SyncSticky": "FALSE"}},
+        {"base": "actor", "flip": {"GateOpen": "FALSE"}},
+    ],
+    "drives": [
+        {"name": "actor", "cmd": "actor", "args": {"n": {"quick": 120, "thorough": 4000}},
+         "trace_module": "ActorTrace",
+         "trace_consts": dict(ENTRY, OpenCounts="TRUE", SyncSticky="TRUE", GateSync="TRUE", GateOpen="TRUE"),
+         "tv_timeout": 3000},
+    ],
+}
